@@ -140,6 +140,31 @@ pub fn eval_program(pr: &Printed, with_comment_gap: Option<usize>, opts: &[Opt])
             }
         }
     }
+    // perturbations of the canonical text itself: only white space differs, so formatting must
+    // give back the canonical text - and must not answer `null` unless nothing changes
+    if let Some(c) = &canon {
+        let mut variants: Vec<String> = vec![c.trim_end_matches('\n').to_string(), format!("{}\n", c), format!("{}  ", c), format!("\n{}", c), format!("{}\t\n", c.trim_end_matches('\n'))];
+        if let Some(i) = c.find(' ') {
+            let mut v = c.clone();
+            v.insert(i, ' ');
+            variants.push(v);
+        }
+        for v in variants {
+            match formatted(&v, &[DEFAULT_OPT]) {
+                Ok(r) => {
+                    let (t, was_null) = &r[0];
+                    if t.as_deref() != Some(c.as_str()) {
+                        out.push((
+                            if *was_null { "null-although-not-canonical".into() } else { "not-canonical".into() },
+                            format!("a white-space variant of the canonical text formats to {:?} (null answer: {}), canonical text {:?}", t, was_null, c),
+                            v.clone(),
+                        ));
+                    }
+                }
+                Err(e) => out.push(("error".into(), e, v.clone())),
+            }
+        }
+    }
     out
 }
 
